@@ -16,7 +16,7 @@ import tlc, tlaval
 from c14 import edge_cover
 
 KINDS = ["SA", "CA", "ERR", "ABTs", "ABTc", "ACKs", "ACKc"]
-PROPS = ["ReplyMatches", "LateAndForeignIgnored", "NoDoubleIndication", "SameIdDifferentPeersIndependent", "NewRequestGetsFreshKey"]
+PROPS = ["ReplyMatches", "LateAndForeignIgnored", "NoDoubleIndication", "SameIdDifferentPeersIndependent", "NewRequestGetsFreshKey", "NewRequestIndicated"]
 INVS = ["IdUniquePerPeer", "ServerKeysUnique", "OutcomeMatches", "AtMostOneOutcomePerRequest"]
 
 
